@@ -1,7 +1,7 @@
 SPECIFICATION Spec
 CONSTANTS
-  AddrNegCountPanic = TRUE
-  OfflineSigSkipped = TRUE
+  AddrNegCountPanic = FALSE
+  OfflineSigSkipped = FALSE
   Level = 1
   ExtraBases <- ExtraGen
 VIEW view
